@@ -7,12 +7,13 @@ THEOREMS = ["tr_sticky_reach", "tr_sticky", "tr_sticky_run",
             "tr_no_panic_step", "tr_wf_init", "tr_no_panic", "tr_no_panic_text", "tr_read_lst_ok",
             "tr_tokenizer_no_panic", "tr_skip_container_frame", "tr_next_spec", "tr_read_radix_shape",
             "tr_parse_int_no_panic",
-            "tr_progress_whitespace", "tr_progress_digits", "tr_progress_radix_digits", "tr_progress_skip_digits",
+            "tr_utf8_read_value", "tr_utf8_app", "tr_utf8", "tr_utf8_step",
+            "tr_progress_whitespace", "tr_progress_digits", "tr_progress_radix_digits", "tr_progress_skip_digits", "tr_progress_plain_digits",
             "tr_progress_strings", "tr_progress_skip_container_loop", "tr_progress_skip_container", "tr_fuel_linear"]
 LEVEL = "other"
 EXPLANATION = ("Theorems over the text reader model for all inputs and all navigation programs: the error is sticky "
                "(tr_sticky*); no call of Next / StepIn / StepOut / any accessor panics (tr_no_panic, by the reader "
                "invariant WF of tr_no_panic_step; the former nil dereferences D02/D03 are fixed in the code and in "
-               "the model); the whitespace/comment, digit, string/clob and container-skipping loops never run out of fuel (fuel = characters left + 2). "
+               "the model); every text the reader holds is valid UTF-8 (tr_utf8); the whitespace/comment, digit, string/clob and container-skipping loops never run out of fuel (fuel = characters left + 2). "
                + textreader_k5.EXPLANATION)
 run = textreader_k5.run
